@@ -252,10 +252,18 @@ def k_strided(ctx):
         with warnings.catch_warnings():
             warnings.simplefilter("ignore")
             a = xp.asarray(np.arange(float(n)), chunks=(c,), spec=spec)
-            y = a[sl]
-        dag = y._plan.dag
-        ops = [d for _, d in dag.nodes(data=True) if d.get("primitive_op") is not None and a.name in d["primitive_op"].source_array_names]
+            try:
+                y = a[sl]
+            except ValueError:
+                # declined while building (merge_chunks refuses when the selected length is shorter than one merged chunk:
+                # a[0:5:2] on one chunk of 8) - an explicit refusal, allowed by C01/C17; the arithmetic part is still compared
+                y = None
+                ctx.count("strided-declined-at-build")
         keys_t, decl = None, None
+        ops = []
+        if y is not None:
+            dag = y._plan.dag
+            ops = [d for _, d in dag.nodes(data=True) if d.get("primitive_op") is not None and a.name in d["primitive_op"].source_array_names]
         if len(ops) == 1 and y.shape != a.shape:
             pop = ops[0]["primitive_op"]
             decl = int(pop.pipeline.config.num_input_blocks[0])
